@@ -27,6 +27,10 @@ pub enum Family {
     Killer,
     /// long equal runs next to their predecessor (partition_equal)
     Plateaus,
+    /// random keys, but the positions choose_pivot samples (len/4, len/2, 3*len/4, each +-1)
+    /// hold the largest (true) or smallest (false) keys: an extreme pivot, a partition with one
+    /// tiny side at the top level
+    SamplesExtreme(bool),
     /// McIlroy's "antiquicksort" adversary: keys are decided by the comparator while the sort
     /// runs, always to the sort's disadvantage (drives the pivot-selection fallbacks: heapsort,
     /// break_patterns); the keys it ends up with form an ordinary total order
@@ -103,6 +107,19 @@ impl SortScript {
                 v
             }
             Family::Adversary => vec![u32::MAX; n],
+            Family::SamplesExtreme(largest) => {
+                let mut v: Vec<u32> = (0..n).map(|_| 1000 + rng.below(1 << 20) as u32).collect();
+                if n >= 8 {
+                    let mut k = 0u32;
+                    for q in [n / 4, n / 2, n / 4 * 3] {
+                        for p in [q - 1, q, q + 1] {
+                            v[p] = if *largest { (1 << 21) + k } else { k };
+                            k += 1;
+                        }
+                    }
+                }
+                v
+            }
             Family::Plateaus => {
                 let mut v = Vec::with_capacity(n);
                 let mut key = 0u32;
@@ -378,7 +395,8 @@ pub fn generate(rng: &mut SplitMix, _focus: &str, thorough: bool) -> SortScript 
         8 | 9 => Family::FewDistinct(pick(rng, &[1u32, 2, 3, 10])),
         10 => Family::SortedWithSwaps(pick(rng, &[1u32, 2, 5, 20])),
         11 => Family::Killer,
-        12 | 13 => Family::Adversary,
+        12 => Family::Adversary,
+        13 => Family::SamplesExtreme(rng.below(2) == 0),
         _ => Family::Plateaus,
     };
     let len = if family == Family::Adversary { len.max(64).min(9000) } else { len };
